@@ -86,7 +86,7 @@ impl Clone for ZKey {
 impl Copy for ZKey {}
 
 pub uninterp spec fn zt_word(c: Comp) -> u64;
-pub uninterp spec fn zfold(s: KeySet) -> u64;
+// zfold: prelude/zkey_spec.rs (included by the unit)
 pub open spec fn zk_wf(k: ZKey) -> bool { k.v == zfold(k.comps@) }
 
 impl ZKey {
